@@ -87,13 +87,13 @@ func (e *env) buildPool(nValid int) (pool []*poolEntry, valids []*poolEntry, pro
 		}
 	}()
 	mk := func(name string, k *keyInfo, src source, ctx, msg []byte, rd int) *poolEntry {
-		st := src.mk(sr25519.NewSigningContext(ctx), msg)
+		st := src.mk(sr25519.NewSigningContext(lendAs("NewSigningContext", ctx)), msg)
 		rt := refTranscript(src, ctx, msg)
 		want := refsr.Sign(k.rsk, k.rpk, rt, stream(rd, 32))
 		sig, err := k.kp.Sign(mkReader(rd), st)
 		if err != nil || !bytes.Equal(mustMarshal(sig), want.Sig) {
 			problems = append(problems, [2]string{"KeyPair.Sign/bytes", "pool signature differs from the reference: " + name})
-			sig, _ = sr25519.NewSignatureFromBytes(want.Sig)
+			sig, _ = sr25519.NewSignatureFromBytes(lendAs("Signature.UnmarshalBinary", want.Sig))
 		}
 		p := &poolEntry{name: name, pk: k.pk, st: st, sig: sig, wellFormed: true, valid: true, sigB: want.Sig}
 		e.fillRef(p, k.ver, rt, want.Sig)
@@ -106,7 +106,7 @@ func (e *env) buildPool(nValid int) (pool []*poolEntry, valids []*poolEntry, pro
 	pool[eValid1], pool[eValid2] = v1, v2
 	// wrong message: v1's key and signature on another transcript
 	wm := &poolEntry{name: "wrong message", pk: k1.pk, sig: v1.sig, wellFormed: true}
-	wm.st = e.srcs[0].mk(sr25519.NewSigningContext([]byte("batch ctx")), []byte("message two"))
+	wm.st = e.srcs[0].mk(sr25519.NewSigningContext(lendAs("NewSigningContext", []byte("batch ctx"))), []byte("message two"))
 	e.fillRef(wm, k1.ver, refTranscript(e.srcs[0], []byte("batch ctx"), []byte("message two")), v1.sigB)
 	pool[eWrongMessage] = wm
 	// wrong key
@@ -120,7 +120,7 @@ func (e *env) buildPool(nValid int) (pool []*poolEntry, valids []*poolEntry, pro
 	if _, _, ok := refsr.DecodeSignature(ms); !ok {
 		ms[32] ^= 3
 	}
-	msig, err := sr25519.NewSignatureFromBytes(ms)
+	msig, err := sr25519.NewSignatureFromBytes(lendAs("Signature.UnmarshalBinary", ms))
 	if err != nil {
 		problems = append(problems, [2]string{"Signature.UnmarshalBinary/accept", "canonical mutated signature rejected"})
 		msig = v1.sig
@@ -131,7 +131,7 @@ func (e *env) buildPool(nValid int) (pool []*poolEntry, valids []*poolEntry, pro
 	// R that is not a ristretto encoding (decoder accepts the signature, verification must not)
 	br := append([]byte{}, sb...)
 	copy(br[:32], ref.LE32(ref.FSub(ref.P, ref.FromLE(sb[:32]))))
-	bsig, err := sr25519.NewSignatureFromBytes(br)
+	bsig, err := sr25519.NewSignatureFromBytes(lendAs("Signature.UnmarshalBinary", br))
 	if err != nil {
 		problems = append(problems, [2]string{"Signature.UnmarshalBinary/accept", "signature with an undecodable R must be accepted by the decoder (R is decompressed lazily)"})
 		bsig = &sr25519.Signature{}
@@ -155,7 +155,7 @@ func (e *env) buildPool(nValid int) (pool []*poolEntry, valids []*poolEntry, pro
 		}
 		copy(cs[32:], ref.LE32(x))
 		cs[63] |= 0x80
-		csig, err := sr25519.NewSignatureFromBytes(cs)
+		csig, err := sr25519.NewSignatureFromBytes(lendAs("Signature.UnmarshalBinary", cs))
 		if err != nil {
 			problems = append(problems, [2]string{"Signature.UnmarshalBinary/accept", "canonical cancelling signature rejected"})
 			csig = v2.sig
